@@ -59,6 +59,8 @@ fn alphabet(property: &str) -> (Idx, Vec<Op>) {
             Op::Update(1, 4),
             Op::Update(1, 5),
             Op::Update(1, 7),
+            Op::Update(1, 14),
+            Op::Update(1, 15),
             Op::Update(2, 8),
             Op::Update(2, 1),
             Op::UpdateUnknown(1),
